@@ -96,6 +96,61 @@ class World:
         return CatalogForecast(catalogs=cs, n_cat=len(cs), region=self.region, start_time=G.T0, end_time=G.T1, name="cf")
 
 
+class _QS:
+    """minimal stand-in for gridded.Setup on a quadtree region"""
+    pass
+
+
+class QuadWorld:
+    def __init__(self, case, perm_events=None, perm_cats=None, perm_cells=None):
+        from pbt import exact, quad
+        keys = list(case["keys"])
+        nt = len(keys)
+        nm = case["mags"]["n"]
+        ra = numpy.array(case["rates"], dtype=float).reshape(nt, nm)
+        rb = numpy.array(case["rates_b"], dtype=float).reshape(nt, nm)
+        obs = [tuple(o) for o in case["obs"]]          # (tile, mag bin, on_south_edge)
+        if perm_cells is not None:
+            inv = {old: new for new, old in enumerate(perm_cells)}
+            keys = [keys[old] for old in perm_cells]
+            ra, rb = ra[perm_cells], rb[perm_cells]
+            obs = [(inv[k], m, e) for k, m, e in obs]
+        self.event_ids = perm_events if perm_events is not None else list(range(len(obs)))
+        if perm_events is not None:
+            obs = [obs[i] for i in perm_events]
+        S = _QS()
+        S.edges = exact.decimal_grid(case["mags"]["start"], case["mags"]["step"], nm)
+        S.hm = float(case["mags"]["step"])
+        S.nm, S.nc = nm, nt
+        S.rates = ra
+        S.obs = [(k, m) for k, m, e in obs]
+        self.S, self.rb, self.keys, self.obs3 = S, rb, keys, obs
+        self.bounds = [quad.bounds(k) for k in keys]
+        from csep.core.regions import QuadtreeGrid2D
+        self.region = QuadtreeGrid2D.from_quadkeys(keys, magnitudes=numpy.array(S.edges))
+        self.cats = []
+
+    def _fore(self, data, name):
+        from csep.core.forecasts import GriddedForecast
+        return GriddedForecast(start_time=G.T0, end_time=G.T1, data=numpy.array(data), region=self.region,
+                               magnitudes=numpy.array(self.S.edges), name=name)
+
+    def fa(self):
+        return self._fore(self.S.rates, "A")
+
+    def fb(self):
+        return self._fore(self.rb, "B")
+
+    def catalog(self):
+        from csep.core.catalogs import CSEPCatalog
+        evs = []
+        for pos, (k, m, edge) in enumerate(self.obs3):
+            w, s_, e, n = self.bounds[k]
+            lat = s_ if (edge and s_ == 0.0) else (s_ + n) / 2      # the equator is an exact tile line: south-inclusive
+            evs.append(("ev%d" % self.event_ids[pos], 1262304000000 + 1000 * self.event_ids[pos], lat, (w + e) / 2, 10.0, self.S.edges[m] + self.S.hm / 2))
+        return CSEPCatalog(data=evs, region=self.region, name="obs")
+
+
 def suite(W, case):
     """name -> (kind, thunk); kind: 'analytic' | 'seeded' | 'catalog' | 'catalog_seeded'"""
     from csep.core import poisson_evaluations as P, binomial_evaluations as Bn, brier_evaluations as Br, catalog_evaluations as CE
@@ -121,6 +176,8 @@ def suite(W, case):
         t["brier"] = ("seeded", lambda: Br.brier_score_test(W.fa(), W.catalog(), num_simulations=k, seed=seed))
     if reachable(S.rates.sum(axis=1).tolist(), len(act_cells)):
         t["binary_S"] = ("seeded", lambda: Bn.binary_spatial_test(W.fa(), W.catalog(), num_simulations=k, seed=seed))
+    if isinstance(W, QuadWorld):
+        return t
     t["catalog_N"] = ("catalog", lambda: CE.number_test(W.cf(), W.catalog(), verbose=False))
     t["catalog_S"] = ("catalog", lambda: CE.spatial_test(W.cf(), W.catalog(), verbose=False))
     t["catalog_M"] = ("catalog", lambda: CE.magnitude_test(W.cf(), W.catalog(), verbose=False))
@@ -165,10 +222,15 @@ def t_ill_conditioned(W, binary=False):
 
 
 def check_case(ctx, case):
-    base = World(case)
-    ref = run_suite(ctx, base, case, "base")
-    variants = [("events", World(case, perm_events=case["perm_events"])), ("catalogs", World(case, perm_cats=case["perm_cats"])),
-                ("cells", World(case, perm_cells=case["perm_cells"]))]
+    if case.get("k") == "quad":
+        base = QuadWorld(case)
+        ref = run_suite(ctx, base, case, "base")
+        variants = [("events", QuadWorld(case, perm_events=case["perm_events"])), ("cells", QuadWorld(case, perm_cells=case["perm_cells"]))]
+    else:
+        base = World(case)
+        ref = run_suite(ctx, base, case, "base")
+        variants = [("events", World(case, perm_events=case["perm_events"])), ("catalogs", World(case, perm_cats=case["perm_cats"])),
+                    ("cells", World(case, perm_cells=case["perm_cells"]))]
     for vname, W in variants:
         got = run_suite(ctx, W, case, vname)
         for name, (kind, r0) in ref.items():
@@ -231,6 +293,8 @@ def moved(p):
 
 
 def nontrivial(case):
+    if case.get("k") == "quad":
+        return max(moved(case["perm_events"]), moved(case["perm_cells"])) >= 2 and len(set(o[0] for o in case["obs"])) >= 2
     cells = set(k for k, m in case["setup"]["obs"])
     return max(moved(case["perm_events"]), moved(case["perm_cats"]), moved(case["perm_cells"])) >= 2 and len(cells) >= 2
 
@@ -254,9 +318,34 @@ def cases(draw):
             "perm_cells": list(draw(st.permutations(list(range(nc)))))}
 
 
+@st.composite
+def quad_cases(draw):
+    from pbt import quad
+    keys = []
+    for k in quad.all_keys(draw(st.integers(1, 2))):
+        keys += quad.children(k) if draw(st.integers(0, 3)) == 0 else [k]
+    nt = len(keys)
+    nm = draw(st.integers(1, 3))
+    mc = {"start": draw(st.sampled_from(["4.95", "5.0"])), "step": draw(st.sampled_from(["0.1", "0.5"])), "n": nm}
+    rates = [float("%.6g" % 10 ** draw(st.floats(-4, 1))) for _ in range(nt * nm)]
+    rates_b = [float("%.6g" % (r * draw(st.floats(0.3, 3.0)))) for r in rates]
+    north_of_equator = [i for i, k in enumerate(keys) if quad.bounds(k)[1] == 0.0]
+    obs = []
+    for _ in range(draw(st.integers(2, 12))):
+        if north_of_equator and draw(st.booleans()):
+            obs.append([draw(st.sampled_from(north_of_equator)), draw(st.integers(0, nm - 1)), 1])
+        else:
+            obs.append([draw(st.integers(0, nt - 1)), draw(st.integers(0, nm - 1)), 0])
+    return {"k": "quad", "keys": keys, "mags": mc, "rates": rates, "rates_b": rates_b, "obs": obs, "seed": draw(st.sampled_from([0, 1, 7])),
+            "nsim": draw(st.integers(1, 3)), "perm_events": list(draw(st.permutations(list(range(len(obs)))))),
+            "perm_cats": [], "perm_cells": list(draw(st.permutations(list(range(nt))))), "cats": []}
+
+
 def run(ctx):
     def fn(c, case):
         check_case(c, case)
-        c.record(case, nontrivial(case), "triple")
+        c.record(case, nontrivial(case), "quadtree" if case.get("k") == "quad" else "triple")
+
+    ctx.drive(quad_cases(), ctx.n(40, 400), fn=fn, salt=2)
 
     ctx.drive(cases(), ctx.n(200, 1500), fn=fn, salt=1)
